@@ -40,6 +40,10 @@ type Fault struct {
 	Mode   string `json:"mode"`   // replace | inject (deliver the altered message, then also the honest one)
 	Timing string `json:"timing"` // natural | early (as soon as the session starts)
 	build  func(m *protocol.Message) *protocol.Message
+	// State-level deviation: called with the deviator's handler after its construction and after every
+	// delivery to it; returns true once the deviation has been applied.
+	Deviator  party.ID                                `json:"deviator,omitempty"`
+	StateHook func(h protocol.Handler) (applied bool) `json:"-"`
 }
 
 // PartyEnd describes how one party ended.
@@ -108,6 +112,18 @@ func run(spec *sess.Spec, seed int64, label string, f *Fault, observe func(drv.D
 		cache[k] = m
 		return m
 	}
+	hook := func() {
+		if f != nil && f.StateHook != nil {
+			if p := net.Parties[f.Deviator]; p != nil && p.H != nil {
+				p.Guard(func() {
+					if f.StateHook(p.H) {
+						end.Applied = true
+					}
+				})
+			}
+		}
+	}
+	hook()
 	steps := 0
 	for len(net.Queue) > 0 && steps < 100000 {
 		d := net.Queue[0]
@@ -116,7 +132,7 @@ func run(spec *sess.Spec, seed int64, label string, f *Fault, observe func(drv.D
 		if observe != nil {
 			observe(d)
 		}
-		if f != nil && matches(f, d) {
+		if f != nil && f.build != nil && matches(f, d) {
 			end.Applied = true
 			if net.Parties[d.To].Deliver(alter(d)) { // the altered message may be nil: CanAccept(nil) is part of the surface
 				end.Accepted = true
@@ -126,6 +142,9 @@ func run(spec *sess.Spec, seed int64, label string, f *Fault, observe func(drv.D
 			}
 		} else {
 			net.Parties[d.To].Deliver(d.M)
+		}
+		if f != nil && d.To == f.Deviator {
+			hook()
 		}
 		net.Flush()
 		if id, _ := net.AnyHung(); id != "" {
